@@ -532,6 +532,25 @@ pub fn run(ctx: &Ctx) -> Vec<Eng> {
             a
         });
     }
+    {
+        // long runs: follow(g1) then 40 operations within 2 deviations of `update`
+        let cases = deviation_cases(40, OPS.len() - 1, 2);
+        for constant in [false, true] {
+            par_cases(&mut e1, &cases, budget, |c, e| {
+                let mut seq = vec![6usize; 41]; // Update
+                seq[0] = 3; // Follow(1)
+                for &(p, a) in c {
+                    let a = a as usize;
+                    seq[p as usize + 1] = if a >= 6 { a + 1 } else { a };
+                }
+                e.executions += 1;
+                e.states += 1;
+                e.max_depth = e.max_depth.max(41);
+                e.transitions += settable_history(&seq, constant, e);
+            });
+        }
+        e1.bounds.push_str("; plus follow(g1) followed by all 40-operation sequences within 2 deviations of `update`");
+    }
     let tdepth = if ctx.thorough { 6 } else { 5 };
     let mut e1b = Eng::new(
         "c15-terminal-following",
@@ -557,6 +576,23 @@ pub fn run(ctx: &Ctx) -> Vec<Eng> {
                 a
             });
         }
+    }
+    {
+        let cases = deviation_cases(40, HOPS.len() - 1, 2);
+        for ctor in 0..4 {
+            par_cases(&mut e2, &cases, budget, |c, e| {
+                let mut seq = vec![9usize; 40]; // Get
+                for &(p, a) in c {
+                    let a = a as usize;
+                    seq[p as usize] = if a >= 9 { a + 1 } else { a };
+                }
+                e.executions += 1;
+                e.states += 1;
+                e.max_depth = e.max_depth.max(40);
+                e.transitions += history_case(ctor, 17, &seq, e);
+            });
+        }
+        e2.bounds.push_str("; plus all 40-operation sequences within 2 deviations of `get`");
     }
     history_case(4, 3, &[], &mut e2);
     e2.executions += 1;
